@@ -63,6 +63,14 @@ func (s *State) clone() *State {
 	return n
 }
 
+// pureApp records an application of a pure interface method (used to synthesise stubs when replaying a model).
+type pureApp struct {
+	obj   *types.Func
+	recv  string
+	nargs int
+	res   Val
+}
+
 type unsupportedErr struct{ msg string }
 
 func (u unsupportedErr) Error() string { return u.msg }
@@ -115,6 +123,8 @@ type FnVerifier struct {
 	axiomsDone map[string]bool
 	lockOf     map[ssa.Value]string
 	sentinels  map[string]bool
+	pureApps   []pureApp
+	lemmaMode  bool
 	strApps    map[string]string
 	targets    []frameTarget
 	decVals    map[*ssa.BasicBlock]Val
